@@ -99,6 +99,39 @@ NOTES = {   # what happened on the FIRST trial of a change, and what was strengt
     "C16-10": "round 5. NOT COVERED: needs a token that expires within microseconds of its verification (between the verifier and the arming of the deadline).",
     "C18-9": "round 5. First trial: MISSED (refused reconnections were reset). The front can also accept, read the request and close cleanly (what a layer-4 balancer does).",
     "C18-10": "round 5. NOT COVERED: needs the grace period used up by the drain AND a peer that accepts the leave connection without ever answering it; the scenarios have the former only.",
+    'C01-11': 'round 6. Keep-alive pooling of inter-node / upstream connections keyed by the endpoint id (the mechanism of C06-5): reported by the dynamic clusters and the twins scenario.',
+    'C02-11': "round 6. `omitempty` on the entries of a delta part + the join reply decoded into the variable that still holds the joiner's own delta.",
+    'C02-12': "round 6. 'Fill the packet': an entry that does not fit is skipped and later, smaller ones are still packed (written independently by FIVE authors: also C03, C04-11, C17). First trial: C03 only disagreed; the bulk-pull probe (300-4200 entries of mixed sizes, hole check after every round) now gives C02, C03, C13 and C17 the failing input.",
+    'C03-12': 'round 6. Delta capped at 256 entries BEFORE the sort by version (cf. C13-12 with 1024).',
+    'C04-11': 'round 6. Same change as C02-12 seen from C04.',
+    'C04-12': 'round 6. Pending nodes stored by value: status changes of a pending node are lost. First trial: the syncer harness no longer COMPILED (it ranged over the map of pointers) and only the broken tie was reported. The harness now reads the pending nodes through reflection; C04 reports the history.',
+    'C05-11': "round 6. Manager mutex released before the cluster is told (written independently by five authors: also C01, C16-12, C20). C05's concurrent mode and C20's stress run report it; since this round C20 also proves on the regenerated per-function lock facts that AddConn/RemoveConn publish under the manager's mutex (C20_registry_changes_publish_under_manager_lock).",
+    'C05-12': 'round 6. Select prunes upstreams whose session has closed without deregistering them. First trial: MISSED (the upstream harness used fake upstream objects, the change type-asserts *ConnUpstream). The harness now registers real ConnUpstreams over yamux and has connections that die before their handler deregisters them (op sever).',
+    'C06-11': 'round 6. Retry on a go-away upstream re-selects with allowRemote=true for an already forwarded request (also written for C15).',
+    'C06-12': 'round 6. Fast path in keepControlHeaders looking at the first Connection line only. First trial: C06 only disagreed (C01 had a failing input). Witnesses with the control header named in a later Connection line added to corpus-h1 / corpus-h2.',
+    'C07-11': "round 6. Agent TCP proxy half-closes the service connection instead of closing it. First trial: MISSED (every service of the harness closed when it saw end-of-stream). A lingering service (keeps writing after end-of-stream) behind the agent and the client forwarder: a write has to fail within 4 s of the client's close (rule tunnel-half-released).",
+    'C07-12': "round 6. 64 KiB websocket read limit at the server's TCP proxy.",
+    'C08-11': "round 6. Agent reverse proxy switched to Rewrite: queries with ';' or a stray '%' are re-encoded.",
+    'C08-12': 'round 6. Auth middleware deletes x-piko-authorization after reading it (the token does not survive the inter-node hop).',
+    'C09-11': 'round 6. `HMACSecretKey != nil` instead of len > 0 (Config.Load always sets a non-nil empty key): forged empty-secret tokens (also written for C10).',
+    'C09-12': 'round 6. Cache of verified tokens + disable_disconnect_on_expiry zeroing the expiry: an expired token accepted after an earlier use. First trial: MISSED (every token was minted per request, expiries at least 30 s away). A token that expires in 2 s is used and the very same bytes are presented again after the expiry (second requests, rule expired-token-accepted).',
+    'C10-12': 'round 6. Tenants-only upstream configuration leaves the upstream port without a verifier.',
+    'C11-11': 'round 6. Outlier filter in the arrival window returning before lastTimestamp is updated (cf. C12-11).',
+    'C11-12': "round 6. CompactLocal discarding every internal entry (the left marker with it). (The first trial's 'no failing input' was two runs of C11 sharing one scratch directory; runs against different trees now have their own.)",
+    'C12-11': 'round 6. Same family as C11-11.',
+    'C12-12': 'round 6. UpdateLiveness removes the node from the detector when it marks it unreachable: a silent node flaps back to reachable.',
+    'C13-11': "round 6. decodeDelta preallocates from the sender's entry count (also written for C20).",
+    'C13-12': 'round 6. Delta capped at 1024 entries before the sort. First trial: MISSED by C13 and C02 (at most ~450 entries per owner in any history), C03 only disagreed. Bulk-pull probe with 1300 and more entries.',
+    'C14-11': 'round 6. OnUpsertKey suppressed when the value equals the (empty) value of the tombstone it replaces.',
+    'C14-12': 'round 6. OnExpired delivered after the state lock was released. First trial: MISSED everywhere (the window is a few instructions wide; race_expire never hit it). Slow-subscriber probe: callbacks of one kind take 150 us - under the lock nothing can overtake them, outside it the re-discovery does.',
+    'C15-11': 'round 6. Balancer cursor reset to 0 on every removal: the churn monitor reports the starved upstream.',
+    'C16-11': 'round 6. MultiTenantVerifier returns a copy of the token without the expiry.',
+    'C16-12': 'round 6. Same change as C05-11 seen from C16 (sequential lifecycle scenarios do not hit the interleaving); C05 and C20 decide it.',
+    'C17-12': 'round 6. deltaEntry sorts internal entries first: the compaction marker overtakes the re-versioned entries.',
+    'C18-11': 'round 6. Leave made context-aware but the stream deadline stays 10 s: a peer that accepts and never answers holds the shutdown beyond its grace period. First trial: only the broken tie was reported (the new leave probe no longer compiled against the changed signature of Gossip.leave). Scenario graceful-stalled-peer (a live gossip member whose stream port accepts and parks the connection, 2 s grace period): grace-exceeded. This also covers the round-5 change C18-10.',
+    'C18-12': "round 6. The listener's close context derived from the Listen context: no reconnection once that context has expired.",
+    'C19-11': 'round 6. AvgConns counts unreachable nodes.',
+    'C19-12': "round 6. The 'no other nodes' guard of Rebalance removed.",
 }
 
 
@@ -126,10 +159,13 @@ def main():
            "Regenerate this file with `tools/seeded_results.py`.", "",
            "| change | what it needs to show | checks (quick tier) | history |", "|---|---|---|---|"]
     for name, m, au in rows:
-        needs = (au.get("needs") or au.get("summary") or "").replace("|", "/").replace("\n", " ")
+        needs = (au.get("needs") or au.get("needs_to_manifest") or au.get("summary") or "").replace("|", "/").replace("\n", " ")
         if len(needs) > 260:
             needs = needs[:257] + "..."
-        chk = "; ".join("%s: %s" % (c.replace(":thorough", " (thorough tier)"), outcome(r)) for c, r in (m.get("checks") or {}).items())
+        final = dict(m.get("checks") or {})
+        final.update(m.get("checks_after_strengthening") or {})      # the first trial is told in the history column
+        m["checks"] = final
+        chk = "; ".join("%s: %s" % (c.replace(":thorough", " (thorough tier)"), outcome(r)) for c, r in final.items())
         out.append("| %s | %s | %s | %s |" % (name, needs, chk, NOTES.get(name, "")))
     n = len(rows)
     caught = sum(1 for _, m, _ in rows if any(r["exit"] != 0 for r in (m.get("checks") or {}).values()))
